@@ -508,9 +508,31 @@ func genDT(c *Case, rng *vrt.Rand, tier string) func(r *Runner, i int) *Op {
 	w[len(w)-1] = min(w[len(w)-1], 2)
 	steps := rng.Range(4, 60)
 	var tag uint32
+	// 3% of the runs first grow one collection to 100..700 elements (size counters beyond one byte, list cursors far
+	// from their initial position, many members per structure) before the usual commands continue on all keys
+	bulkN, bulkKind := 0, ""
+	if rng.Chance(0.03) {
+		bulkN = rng.Range(100, 700)
+		bulkKind = []string{"hset", "sadd", "lpush", "rpush", "zadd"}[rng.Intn(5)]
+		steps += bulkN
+		if c.Cfg.FileSize < 4096 {
+			// thousands of one-record files, all of them mapped, make a run take minutes (the model of the mapped
+			// files is refreshed at every file call): large collections are about counters and cursors, not rotation
+			c.Cfg.FileSize = 4096
+		}
+		for j := 0; j < 3; j++ {
+			fields = append(fields, []byte(fmt.Sprintf("m%04d", rng.Intn(bulkN))))
+		}
+		nf = len(fields)
+	}
 	return func(r *Runner, i int) *Op {
 		if i >= steps {
 			return nil
+		}
+		if i < bulkN {
+			tag++
+			return &Op{K: bulkKind, Key: keys[0], F2: Bytes(fmt.Sprintf("m%04d", (i*7)%bulkN)), Val: &Val{Len: rng.Range(1, 8), Tag: tag},
+				F: float64(i%50) + 0.5, Dt: int64(rng.Range(1, 2000))}
 		}
 		op := &Op{K: cmds[rng.Pick(w)]}
 		op.Key = keys[rng.Intn(nkeys)]
@@ -548,6 +570,10 @@ func genDT(c *Case, rng *vrt.Rand, tier string) func(r *Runner, i int) *Op {
 			op.F = float64(rng.Range(0, 5)) + float64(rng.Intn(4))*0.25
 			if rng.Chance(0.1) {
 				op.F = -float64(rng.Range(2, 9)) // negative scores (never -1, which the layer also uses for "absent")
+			}
+			if rng.Chance(0.06) {
+				// scores at the edges of float64: beyond 2^53, huge, tiny, negative and large
+				op.F = []float64{9007199254740993, 1e15 + 0.5, 1.7e308, 1e-300, -1e18, 4294967296.25, 0.1 + 0.2}[rng.Intn(7)]
 			}
 		case "restart":
 			op.Val = nil
